@@ -459,7 +459,9 @@ def norm_xy(
     _mean = pts.mean(axis=0)
     XX = np.subtract(pts, _mean, out=out)
 
-    sx = (((XX**2).sum(axis=1) * 0.5) ** -0.5).mean()
+    # mean distance first, then invert: a point at the centroid has distance 0
+    d = np.sqrt((XX**2).sum(axis=1)).mean()
+    sx = np.sqrt(2) / d if d > 0 else 1.0
     XX *= sx
 
     tx, ty = -_mean * sx
